@@ -32,6 +32,12 @@ pub const SESSIONS: &[(&str, &str)] = &[
     ("counter_factory", "mk := () -> () -> int { n := mut 0; return () -> int { n += 1; return *n } }\na := mk()\nb := mk()\na()\na()\nb()\n(a(), b())"),
     ("cell_in_struct", "c := mut [int] []\ns := struct{cell := c, tag := \"t\"}\npush := (v: int) { s.cell += [v] }\npush(1)\npush(2)\n*c\ns2 := s\ns2.cell += [3]\n*s.cell"),
     ("iter_ops", "src := [5, 1, 4, 2]~\nbig := src ? (x: int) -> bool { return x > 1 }\ndbl := big @ (x: int) -> int { return x * 2 }\ndbl()\nrest := dbl $]\nrest\nsrc()\ntotal := [1, 2, 3]~ $+\ntotal"),
+    ("binding_shadows", "x := 1\nv := 7\nif x: int = v { x + 1 } else { 0 }\ny := x\ny\nw := mut 3\nwhile x: int = *w { w -= 1; if x < 2 { break } }\nx\nfor x in [10, 20]~ { x }\nx\nr := match v { x: int => x + 100, }\n(x, r)\ng := (x: int) -> int { return x * 2 }\n(g(5), x)\n{ x := 50; x }\nx"),
+    ("binding_shadows_cells", "c := mut 1\nv := mut 9\nif c: mut int = v { c += 1 }\n*c\n(*c, *v)\nfor c in [v]~ { c += 10 }\n(*c, *v)\nh := (c: mut int) -> int { c += 100; return *c }\nh(v)\n(*c, *v)"),
+    ("redeclare_signature", "f := (a: int) -> int { return a + 1 }\nf(1)\ng := () -> int { return f(10) }\nf := (a: string, b: int) -> string { return a }\nf(\"s\", 2)\ng()\nf := 5\nf + 1\ng()"),
+    ("module_outer_names", "base := 10\nm := mod { k := base + 1; get := () -> int { return k + base } }\nm.get()\nbase := 20\nm.get()\nm2 := mod { k := base + 1; get := () -> int { return k + base } }\n(m.k, m2.k, m2.get())"),
+    ("toplevel_loop_control", "acc := mut [int] []\ni := mut 0\nloop { i += 1; if *i > 6 { break }; if *i % 2 == 0 { continue }; acc += [*i] }\n*acc\nfor e in [1, 2, 3, 4]~ { if e == 3 { break }; acc += [e * 10] }\n*acc\n(*i, std.len(*acc))"),
+    ("iterator_across_inputs", "src := [1, 2, 3, 4, 5, 6]~\nev := src ? (x: int) -> bool { return x % 2 == 0 }\nev()\nsrc()\nev()\nrest := ev $]\nrest\n(src(), ev())"),
     ("own_name_param", "f := (f: int, g: int) -> int { return f + g }\nf(1, 2)\ng := (x: int) -> int { g := x + 1; return g }\ng(1)\ng(2)"),
 ];
 
